@@ -32,6 +32,9 @@ var configCmd = &cobra.Command{
 		if len(dotSplit) != 2 {
 			return ErrInvalidArgs
 		}
+		if dotSplit[0] == "" || dotSplit[1] == "" {
+			return ErrInvalidArgs
+		}
 
 		// get global flag
 		isGlobal, err := cmd.Flags().GetBool("global")
